@@ -59,7 +59,7 @@ class Ctx(object):
                               "transitions": r.generated, "depth": r.depth, "wall_s": round(r.wall, 2)})
         return r
 
-    def validate(self, module, doc, cfg=None, timeout=1800, label=None):
+    def validate(self, module, doc, cfg=None, timeout=1800, label=None, _chunked=False):
         """Run trace spec `module` over doc (dict with 'traces').  Returns (fails, stuck)
         fails: list of (tid0, l0, clause) 0-based; stuck: list of (tid0, matched, length)."""
         traces = doc["traces"]
@@ -67,16 +67,24 @@ class Ctx(object):
             return [], []
         # large batches are validated in chunks (bounded JSON size and TLC memory); indices are re-based
         total = sum(len(t) for t in traces)
-        if total > 250000 and len(traces) > 1:
+        MAXB = 30 * 1000 * 1000           # JSON bytes per TLC invocation (TLC's deserialiser is slow and memory-hungry beyond that)
+        sizes = None
+        if len(traces) > 200 and not _chunked:
+            sample = traces[::max(1, len(traces) // 200)]
+            if sum(len(json.dumps(t)) for t in sample) / len(sample) * len(traces) > MAXB:
+                sizes = [len(json.dumps(t)) for t in traces]
+        if (total > 250000 or sizes) and len(traces) > 1 and not _chunked:
             fails = []
             start = 0
             while start < len(traces):
-                n, ev = 0, 0
-                while start + n < len(traces) and (n == 0 or ev + len(traces[start + n]) <= 250000):
+                n, ev, nb = 0, 0, 0
+                while start + n < len(traces) and (n == 0 or (ev + len(traces[start + n]) <= 250000
+                                                              and (sizes is None or nb + sizes[start + n] <= MAXB))):
                     ev += len(traces[start + n])
+                    nb += sizes[start + n] if sizes else 0
                     n += 1
                 part = dict(doc, traces=traces[start:start + n])
-                f, _ = self.validate(module, part, cfg=cfg, timeout=timeout, label=label)
+                f, _ = self.validate(module, part, cfg=cfg, timeout=timeout, label=label, _chunked=True)
                 fails += [(t + start, l, c) for t, l, c in f]
                 start += n
             return fails, []
